@@ -1303,12 +1303,16 @@ def useGlobEnum : List (String × List (String × Nat)) → String → Option St
 def globVariant (enums : List (String × List (String × Nat))) : List (String × Value) → String → Option Value
   | [], _ => none
   | (k, v) :: rest, x =>
-    match k == "{use}", v with
-    | true, .str t =>
-      (match (enums.lookup t).bind (·.lookup x) with
-       | some 0 => some (.enumv (t ++ "::" ++ x) [])
-       | _ => globVariant enums rest x)
-    | _, _ => globVariant enums rest x
+    match k == "{use}" with
+    | false => globVariant enums rest x
+    | true =>
+      match v with
+      | .str t =>
+        (match enumArity enums "" [t, x] with
+         | some 0 => some (.enumv (t ++ "::" ++ x) [])
+         | some _ => globVariant enums rest x
+         | none => globVariant enums rest x)
+      | _ => globVariant enums rest x
 
 def globPath (enums : List (String × List (String × Nat))) (env : List (String × Value)) : List String → Option Value
   | [x] => globVariant enums env x
